@@ -128,7 +128,133 @@ def check(rep):
                        'userids 16..255 / negative / unallocated, 19 sessions for <= 16 slots), then srvlib.gen_histories traffic; '
                        'every history through the real dispatcher, monitor on its output; model/implementation diff per event on '
                        'the corpus and a quarter of the rest (quick) or all (thorough). evaluations = events monitored')
-    return authlib.run_check(rep, 'C03', monitor, authlib.AuthGen.SCENARIOS_C03, ('c03-gen', 'c03-tgt'))
+    return authlib.run_check(rep, 'C03', monitor, authlib.AuthGen.SCENARIOS_C03, ('c03-gen', 'c03-tgt'),
+                             extra_harnesses={'srvreal': SRV_REALLOGIN, 'login': LOGIN_FN}, extra_stage=real_login_stage)
+
+
+# ---------------------------------------------------------------------------------------------------------------------
+# Real-login stage.  The histories above run with login_calculate() replaced (the model needs an oracle for it); "answering
+# the challenge" then means answering the stand-in.  Here the same server harness is linked with the REAL login_calculate of
+# src/login.c, and the monitor judges logins by the formula of the protocol document (hashlib MD5, never the code): for every
+# one of the 31 bits a challenge can differ in, a session logs in correctly, falls silent, the slot is re-claimed by somebody
+# else with a challenge that differs in exactly that bit, and the old login is replayed byte for byte -- it must be refused
+# and nothing privileged may follow (same monitor as above).  The login the first session sends is what login_calculate()
+# of the same tree computes (a real client), so a login function that client and server share but that is not the
+# documented one shows as a login accepted without the documented answer.  No model comparison here (the model's login is the stand-in).
+import srvlib
+SRV_REALLOGIN = dict(srvlib.SRV)
+SRV_REALLOGIN['wraps'] = [w for w in srvlib.SRV['wraps'] if w != 'login_calculate']
+# what a real client answers: login_calculate() of the same tree (harness/h_c19.c, case L)
+LOGIN_FN = dict(harness=['hmain.c', 'h_c19.c'], repo=vlib.PURE_SRCS, wraps=['time', 'md5_append'])
+A_INV = pow(1103515245, -1, 1 << 64)
+
+
+def seed_for_challenge(c, rng):
+    """a value for the harness' rand() state such that the next rand() returns c (0 <= c < 2^31)"""
+    x = (rng.randrange(1 << 17) << 47) | (c << 16) | rng.randrange(1 << 16)
+    return ((x - 12345) * A_INV) % (1 << 64)
+
+
+def real_login_stage(rep, ctx):
+    global login_stub
+    if 'srvreal' not in ctx.exe:
+        return
+    import hashlib
+    from srvlib import qname, enc, b32c
+
+    def doc_login(pw, seed):
+        p32 = (bytes(pw) + bytes(32))[:32]
+        chal = (seed % (1 << 32)).to_bytes(4, 'big') * 8
+        return hashlib.md5(bytes(a ^ b for a, b in zip(p32, chal))).digest()
+
+    rng = vlib.rng_for(rep.seed, 'c03-real')
+    hs = []
+    plan = []
+    for bit in range(31):
+        for variant in range(1 if rep.tier == 'quick' else 6):
+            pw = bytes(rng.randrange(1, 256) for _ in range(rng.choice([3, 8, 32]))) if rng.randrange(3) else b'secret'
+            c1 = rng.randrange(1 << 31)
+            plan.append((bit, variant, pw, c1, c1 ^ (1 << bit)))
+    # the logins a real client of this tree sends for the first challenge and for the second
+    client = {}
+    if 'login' in ctx.exe:
+        ll = []
+        for bit, variant, pw, c1, c2 in plan:
+            ll += ['L 16 %s %d' % (vlib.hexs(pw), c1), 'L 16 %s %d' % (vlib.hexs(pw), c2)]
+        rc0, lo, err0 = vlib.parallel_run_cases(ctx.exe['login'], ll, ctx.work, 'clientlogin')
+        for l, o in zip(ll, lo):
+            t = l.split(' ')
+            try:
+                client[(t[2], int(t[3]))] = bytes.fromhex(o.split(' ')[0])
+            except ValueError:
+                pass
+    for bit, variant, pw, c1, c2 in plan:
+        for _ in (0,):
+            g = srvlib.HistGen(rng, adversarial=0.0)
+            g.no_case_relay = True
+            g.check_ip = 1
+            g.set_net('10.0.0.1', 27)
+            g.password = pw
+            real1 = client.get((vlib.hexs(pw), c1), doc_login(pw, c1))
+            real2 = client.get((vlib.hexs(pw), c2), doc_login(pw, c2))
+            a = srvlib.Session(g, (4, bytes([192, 0, 2, 10]), 4010))
+            m = srvlib.Session(g, (4, bytes([198, 51, 100, 7]), 4011))
+
+            def version(s, chal):
+                s.rs = (s.rs + 1) & 0xffff
+                data = bytes([0, 0, 5, 2, s.rs >> 8, s.rs & 255])
+                g.emit_query(s.addr, qname(b'v', enc(0, data), g.domain), seed=seed_for_challenge(chal, rng))
+
+            def login(s, uid, h):
+                s.rs = (s.rs + 1) & 0xffff
+                g.emit_query(s.addr, qname(b'l', enc(0, bytes([uid]) + h + bytes([s.rs >> 8, s.rs & 255])), g.domain))
+
+            def after(s, uid):
+                # what an intruder would do next: ask for the address, switch the codec, send a packet
+                s.rs = (s.rs + 1) & 0xffff
+                cm = b32c(s.rs >> 10) + b32c(s.rs >> 5) + b32c(s.rs)
+                g.emit_query(s.addr, b'i' + b32c(uid) + cm + b'.' + g.domain)
+                ip = bytearray(rng.randrange(256) for _ in range(32))
+                ip[20:24] = bytes([8, 8, 8, 8])
+                hdr = ('%x' % uid).encode() + b32c(1 << 2) + b32c(0) + b32c(1) + b'a'
+                g.emit_query(s.addr, qname(hdr, enc(0, bytes([0x5A]) + bytes(ip)), g.domain))
+
+            version(a, c1)
+            login(a, 0, real1)                              # what the real client sends for c1
+            after(a, 0)
+            g.now += rng.choice([61, 62, 120])
+            version(m, c2)
+            login(m, 0, real1)                              # the replay
+            after(m, 0)
+            if variant % 2:
+                login(m, 0, real2)                          # and the right answer works
+                after(m, 0)
+            hs.append('H ' + g.cfg() + ' ; ' + ' ; '.join(g.events))
+    rc, impl, err = vlib.parallel_run_cases(ctx.exe['srvreal'], hs, ctx.work, 'reallogin')
+    if rc != 0:
+        ctx.broken.append(('impl-crash', 'server harness (real login_calculate) exited with %d: %s' % (rc, err[-300:])))
+    saved = login_stub
+    login_stub = doc_login
+    cnt = {}
+    try:
+        for c, o in zip(hs, impl):
+            if o == '<NO-OUTPUT>':
+                continue
+            res = monitor(c, o, cnt)
+            if res:
+                key, what, upto = res
+                rep.add_violation('real-login:' + key, 'real login_calculate, challenge of the re-claimed slot differs from the old one in one bit, old login '
+                                  'replayed: ' + what, dict(kind='input', driver='srvreal', case=authlib.truncate_history(c, upto), expected=what,
+                                                            observed=split_events(o)[upto][:1500] if upto < len(split_events(o)) else ''))
+                break
+    finally:
+        login_stub = saved
+    rep.cov['real_login_stage'] = dict(histories=len(hs), correct_logins=cnt.get('correct_logins', 0), wrong_logins=cnt.get('wrong_logins', 0),
+                                       tun_writes=cnt.get('tun_writes', 0), i_replies=cnt.get('i_replies', 0))
+    rep.cov['evaluations'] = rep.cov.get('evaluations', 0) + sum(h.count(' ; ') for h in hs)
+    rep.cov['rule'] += ('. Real-login stage: %d histories with the real login_calculate (src/login.c): correct login, 61+ s of silence, the slot '
+                        're-claimed with a challenge differing in exactly one of the 31 bits, the old login replayed, then I / data requests; '
+                        'judged by the same monitor with the login formula of the protocol document' % len(hs))
 
 
 def replay(rp):
